@@ -15,10 +15,35 @@ NA = {
 }
 
 # id -> (engine, technique, level text, level note, design ref)
+S4NOTE = "real: generated clients/servers (generated at check time by the generator from /repo), restli, restlicodec, batchkeyset, net/http above the transport incl. Request.Write/ReadRequest/ReadResponse and ServeMux; stub: TCP and the per-connection server loop (simulated transport), resource implementations (generated MockResource). Trusts the reference model (mock table + normalisations stated in the property texts) and the binding family as the bound on 'programs'."
+S4TECH = "deterministic simulation with fault injection: seeded schedules of caller and server tasks over a simulated HTTP exchange (token kernel), faults from the choice stream, mock table as reference model; violations replayed and choice-list-minimised in fresh processes"
+
+# id -> (engine, technique, level text, level note, design ref)
 CHECKS = {
+ "C02": ("token-kernel", S4TECH,
+         "Seeded search over (resource, method, arguments, reply, mounting, resolver base, strict/lenient, schedule) with 1-4 concurrent callers; fault-free, mounting and lossy (request/response loss, truncation, cancellation, version-header loss) batches run separately: every delivered call invokes exactly the named resource method once with equal arguments and the client returns exactly what the resource returned; under lossy faults an error or exactly the model's value. Sampled, not exhaustive.",
+         S4NOTE, "§4 C02, §2.4, §2.7"),
+ "C04": ("token-kernel", S4TECH + "; one payload damage per exchange",
+         "Exchange-level sentence only: seeded damages (truncate, insert metacharacter, replace, delete, duplicate) at drawn positions of request path keys, query, request body, response body and X-RestLi-Id: no panic escapes ServeHTTP, never a 5xx / recovered panic / stack trace for a request that resource code did not accept, at most one invocation, the client never panics, no task hangs (20 s watchdog). Sampled.",
+         S4NOTE + " Decoder entry points not reachable over an HTTP exchange are not claimed.", "§4 C04"),
+ "C05": ("token-kernel", S4TECH + "; header-stripping intermediary, recording/failing filters, damaged paths, late registration",
+         "Exchange-level clauses: exactly-once dispatch to the method the generated client named; inference agrees with the client when X-RestLi-Method is stripped (POST to collections -> 400 untouched); damaged paths -> 404/400 with neither resource code nor filters running; filter order and context; late registration invisible to an earlier Handler(); all under bare / ServeMux / prefix mounting. Sampled.",
+         S4NOTE + " The full verb x header x path table for foreign requests is a pure decision table and is not enumerated.", "§4 C05"),
+ "C07": ("token-kernel", S4TECH + "; wire tap parsed with encoding/json; Byzantine client",
+         "Exchange half: nothing at an excluded path leaves the generated client (wire tap), the resource sees the entity minus exactly the excluded paths, a patch touching an excluded leaf fails on the client with nothing sent, and a Byzantine client's body carrying such a value is answered 400 without the resource running. Sampled over the family's six paths.",
+         S4NOTE, "§4 C07"),
+ "C08": ("token-kernel", S4TECH + "; failing-resource faults and shared error objects",
+         "Seeded search over resource outcomes {value, overridden status, ErrorResponse with any subset of fields, plain error, panic, typed-nil entity} x method kinds x 1-4 concurrent callers sharing error objects: error responses arrive field-equal with the right HTTP status and header, other failures become failure statuses carrying the message, never a crashed connection or a success; returned error objects are unchanged; success statuses follow the protocol defaults. Sampled.",
+         S4NOTE, "§4 C08"),
+ "C14": ("token-kernel", S4TECH + "; twin execution (tunnelling off vs threshold around the call's own query length)",
+         "Twin execution of every call with thresholds {1, len-1, len, len+1, 10^6, off}: wire shape on both sides of the threshold, identical request view for routing/filters/resource after de-tunnelling, identical client results; damaged tunnelled requests -> 400 untouched. Sampled.",
+         S4NOTE, "§4 C14"),
+ "C16": ("token-kernel", S4TECH + "; adversarial key multisets and Byzantine batch replies",
+         "Batch get/update/partial_update/delete over every key type of the family with duplicates under key equality (complex keys equal up to params), real 32-bit FNV-1a bucket collisions, metacharacter keys; replies with a dropped or an unrequested key: duplicates refused before sending, ids received as the same set, every entry under the caller's own key (pointer identity), unrequested key -> error. Sampled.",
+         S4NOTE, "§4 C16"),
  "C17": ("token-kernel", "deterministic simulation: seeded serial schedules of real goroutines under the race detector (raw-pipe parking keeps TSan effective), per-request outcomes compared with the serial model",
-         "Seeded search over interleavings of N tasks sharing one custom-typeref registry / one d2.Client (update loops + resolvers); zero race-detector reports and per-task results equal to the serial expectation on every explored schedule. Sampled, not exhaustive.",
-         "trusts the Go race detector (bounded history), the token kernel and the sync shim (each operation = yield + the real primitive); S4 (handler/client) batches are added to this check as they land", "§4 C17, §2.2"),
+         "Seeded search over interleavings of N tasks sharing one custom-typeref registry / one d2.Client (update loops + resolvers) / one handler and one client (mixed methods, shared error objects, late registration, lossy faults): zero race-detector reports and per-task results equal to the serial expectation on every explored schedule. Sampled, not exhaustive.",
+         "trusts the Go race detector (bounded history), the token kernel and the sync shim (each operation = yield + the real primitive); one channel send/receive per simulated message is the only harness-made happens-before edge", "§4 C17, §2.2"),
  "C18": ("token-kernel", "deterministic simulation: seeded schedules at the granularity of the real sync.Map/WaitGroup steps; porcupine linearizability check of every recorded history against a compute-if-absent map",
          "Seeded search over interleavings of 2-4 clients x 1-3 operations on the real lazymap; each history is checked with porcupine against a sequential model, plus at-most-once compute, no placeholder leak, no deadlock; also under the race detector. Sampled, not exhaustive.",
          "trusts porcupine v1.3.0, the sync shim (yield + real primitive) and the assumption that sync.Map / WaitGroup operations are the atomic steps", "§4 C18"),
